@@ -252,21 +252,6 @@ STYLES = ['star', 'enclose', 'spiral', 'snake', 'rectil', 'corner', 'star', 'sna
 MAGS = [6, 30, 1000, 1 << 20, 1 << 25, 1 << 30, 1 << 38, 1 << 36]
 
 
-def necklaces(pts, n):
-    """closed paths of n vertices over pts up to rotation (the lexicographically least rotation is generated)"""
-    idx = range(len(pts))
-    for c in itertools.product(idx, repeat=n):
-        if c[0] != min(c):
-            continue
-        ok = True
-        for k in range(1, n):
-            if c[k:] + c[:k] < c:
-                ok = False
-                break
-        if ok:
-            yield c
-
-
 LAT_K = 8   # lattice unit: the 5x5 lattice is {0,8,..,32}^2, the rectangle [8,24]^2, so that sample points > 2 units from a path exist
 
 
@@ -389,6 +374,8 @@ def evaluate(tools, cases, rng, npts, lattice=False, with_model=True):
     cmds = [clipx_cmd(c) for c in cases]
     a = tools.impl(cmds)
     b = tools.model(cmds) if with_model else [None] * len(cmds)
+    if len(cases) > 1000:
+        tools.ctx.log('implementation and model stages done (%d cases)' % len(cases))
     outs = [parse_final(x) for x in a]
     idx = [i for i, o in enumerate(outs) if o is not None]
     lp = lattice_points() if lattice else None
@@ -397,6 +384,8 @@ def evaluate(tools, cases, rng, npts, lattice=False, with_model=True):
         ptsl[i] = lp if lattice and cases[i]['style'].startswith('lattice') and not cases[i]['style'].endswith('*') \
             else sample_points(rng, cases[i], outs[i], npts)
     vs = tools.model([chk_cmd(cases[i], outs[i], ptsl[i]) for i in idx])
+    if len(cases) > 1000:
+        tools.ctx.log('specification checker done')
     vm = dict(zip(idx, vs))
     res = []
     for i, c in enumerate(cases):
@@ -458,8 +447,12 @@ def describe(c, e):
 
 def record(ctx, tools, case, d, rng):
     for key in d['fail']:
-        def fails_many(cs, key=key):
-            return [key in e['fail'] for e in evaluate(tools, cs, rng.fork(3), 48, with_model=False)]
+        # a root-cause key keeps the clauses that make the demonstration unambiguous (a vertex far outside the rectangle)
+        need = [k for k in d.get('clauses', []) if k == 'clip.vertex-outside']
+
+        def fails_many(cs, key=key, need=need):
+            return [key in e['fail'] and all(k in e.get('clauses', []) for k in need)
+                    for e in evaluate(tools, cs, rng.fork(3), 48, with_model=False)]
         small = C09.shrink_generic(case, fails_many, 3) if not key.endswith('crash') else case
         e = evaluate(tools, [small], rng.fork(3), 48, with_model=False)[0]
         if key not in e['fail']:
@@ -517,10 +510,9 @@ def generate(ctx, n_random, lat_full, lat_sample):
     rng = ctx.rng
     cases = load_corpus()
     ncorp = len(cases)
-    pts = list(range(25))
     lat = []
-    for n in lat_full:
-        lat += [lattice_case(c) for c in necklaces(pts, n)]
+    for n in lat_full:     # every closed lattice path with n vertices (all starting points: the state machine depends on where it starts)
+        lat += [lattice_case(c) for c in itertools.product(range(25), repeat=n)]
     srng = rng.fork(4)
     for n, cnt in lat_sample:
         for _ in range(cnt):
@@ -547,7 +539,7 @@ def generate(ctx, n_random, lat_full, lat_sample):
 
 def explore(ctx, tools, n_random, lat_full, lat_sample, asan_n, npts):
     cases, ncorp = generate(ctx, n_random, lat_full, lat_sample)
-    ctx.log('%d polygons (%d corpus, lattice necklaces %s exhaustive + %s sampled, %d random/scaled)'
+    ctx.log('%d polygons (%d corpus, lattice paths of %s vertices exhaustive + %s sampled, %d random/scaled)'
             % (len(cases), ncorp, lat_full, lat_sample, n_random + n_random // 6))
     ev = evaluate(tools, cases, ctx.rng.fork(5), npts, lattice=True)
     ctx.count('evaluations', len(cases))
@@ -611,20 +603,25 @@ def run(ctx):
         'the winding-number clause is validated, not proved: the verified checker decides it exactly at the sample points handed to it (soundness: C08_sample_check_sound); it is not lifted to all points of the plane',
         '"new vertex within one unit of the boundary" is read as Euclidean distance <= 1; "inside the rectangle within one grid unit" as every coordinate within [side - 1, side + 1]; "farther than 2 units" as strictly greater; rectangles are non-empty (left < right, top < bottom), polygons have >= 3 vertices',
     ]
-    ctx.cov['rule'] = ('closed lattice paths on the 5x5 lattice (unit 6) against the central 2x2-cell rectangle: all necklaces (paths up to rotation) of 3 and 4 vertices exhaustively in the quick tier '
-                       '(3..5 in the thorough tier) + seeded samples of 5 and 6 vertices; exact scalings/translations of those up to |coords| 2^40; seeded random polygons in 17 styles (star-shaped simple polygons '
+    ctx.cov['rule'] = ('closed lattice paths on the 5x5 lattice (unit 8) against the central 2x2-cell rectangle: ALL 25^3 paths of 3 vertices (every starting point) in the quick tier, all of 3 and 4 vertices '
+                       '(406k) in the thorough tier, seeded samples of the 4/5/6-vertex paths beyond that (the full <= 6 vertex scope, 2.5e8 paths, is not enumerated); exact scalings/translations of those up to |coords| 2^40; seeded random polygons in 17 styles (star-shaped simple polygons '
                        'snapped to the side lines, rings enclosing the rectangle, spirals winding around it 1-4 times, thick open rings and combs (simple), rectilinear walks on the side lines, through corners, '
                        'and the 9 polyline styles of C09 closed up) x 8 magnitudes up to 2^40; non-trivial = no bounds shortcut taken and at least one sample point qualifies (strictly inside or outside the '
                        'rectangle and > 2 units from the path); distinct by input')
     pr = vf.coq_props(ctx, 'C08')
     broken = not pr['ok']
     tools = Tools(ctx)
-    quick = ctx.quick and not broken
-    lm = leaf_tie(ctx, tools, 3000 if quick else 60000)
-    if quick:
-        mism = explore(ctx, tools, 42000, [3, 4], [(5, 6000), (6, 6000)], 3000, 40)
+    ctx.log('tools ready')
+    lm = leaf_tie(ctx, tools, 8000 if ctx.quick else 60000)
+    ctx.log('leaf functions: %d mismatches' % len(lm))
+    if ctx.quick and not broken and not lm and not tools.tie_error:
+        mism = explore(ctx, tools, 24000, [3], [(4, 20000), (5, 6000), (6, 6000)], 3000, 32)
+    elif ctx.quick:
+        # a proof, tie or leaf correspondence break: search for a failing input with a larger budget
+        ctx.log('break (proof %s, harness %s, leaf %d): searching with a larger budget' % (broken, bool(tools.tie_error), len(lm)))
+        mism = explore(ctx, tools, 100000, [3], [(4, 80000), (5, 30000), (6, 30000)], 3000, 40)
     else:
-        mism = explore(ctx, tools, 600000, [3, 4, 5], [(6, 400000)], 30000, 64)
+        mism = explore(ctx, tools, 600000, [3, 4], [(5, 500000), (6, 500000)], 30000, 64)
     found = bool(ctx.violations) or bool(ctx.known_hits)
     if lm:
         l, x, y = lm[0]
